@@ -393,16 +393,56 @@ func registerLibModels(e *Engine) {
 	// ---------- regexp (native on concrete text) ----------
 	reOf := func(v value) *regexp.Regexp { return (*v.(*value)).(nativeObj).v.(*regexp.Regexp) }
 	cs := func(fr *frame, v value) string { return fr.i.ps.concretizeStr(v) }
-	in["(*regexp.Regexp).FindStringSubmatch"] = func(fr *frame, a []value) value { return strList(reOf(a[0]).FindStringSubmatch(cs(fr, a[1]))) }
-	in["(*regexp.Regexp).FindString"] = func(fr *frame, a []value) value { return reOf(a[0]).FindString(cs(fr, a[1])) }
+	// on symbolic text the Find family first decides, with one condition, whether there is a match at
+	// all; only texts that do match are then enumerated (the positions depend on the bytes)
+	noMatch := func(fr *frame, re *regexp.Regexp, text value) bool {
+		ss, isSym := text.(sstr)
+		if !isSym {
+			return false
+		}
+		ps := fr.i.ps
+		for _, b := range ss.b {
+			if !b.IsConst() && !ps.decide(smt.BvCmp(smt.OpBvUlt, b, smt.BV(0x80, 8))) {
+				panic(pathEnd{"assume-false", "non-ASCII symbolic byte in a regular-expression match (outside the stated bound)"})
+			}
+		}
+		cond, ok := symRegexMatch(re, ss.b)
+		return ok && !ps.decide(cond)
+	}
+	in["(*regexp.Regexp).FindStringSubmatch"] = func(fr *frame, a []value) value {
+		if noMatch(fr, reOf(a[0]), a[1]) {
+			return []value(nil)
+		}
+		return strList(reOf(a[0]).FindStringSubmatch(cs(fr, a[1])))
+	}
+	in["(*regexp.Regexp).FindString"] = func(fr *frame, a []value) value {
+		if noMatch(fr, reOf(a[0]), a[1]) {
+			return ""
+		}
+		return reOf(a[0]).FindString(cs(fr, a[1]))
+	}
 	in["(*regexp.Regexp).FindAllString"] = func(fr *frame, a []value) value {
+		if noMatch(fr, reOf(a[0]), a[1]) {
+			return []value(nil)
+		}
 		return strList(reOf(a[0]).FindAllString(cs(fr, a[1]), int(asInt64(a[2]))))
 	}
-	in["(*regexp.Regexp).FindStringIndex"] = func(fr *frame, a []value) value { return intList(reOf(a[0]).FindStringIndex(cs(fr, a[1]))) }
+	in["(*regexp.Regexp).FindStringIndex"] = func(fr *frame, a []value) value {
+		if noMatch(fr, reOf(a[0]), a[1]) {
+			return []value(nil)
+		}
+		return intList(reOf(a[0]).FindStringIndex(cs(fr, a[1])))
+	}
 	in["(*regexp.Regexp).FindStringSubmatchIndex"] = func(fr *frame, a []value) value {
+		if noMatch(fr, reOf(a[0]), a[1]) {
+			return []value(nil)
+		}
 		return intList(reOf(a[0]).FindStringSubmatchIndex(cs(fr, a[1])))
 	}
 	in["(*regexp.Regexp).FindAllStringIndex"] = func(fr *frame, a []value) value {
+		if noMatch(fr, reOf(a[0]), a[1]) {
+			return []value(nil)
+		}
 		res := reOf(a[0]).FindAllStringIndex(cs(fr, a[1]), int(asInt64(a[2])))
 		if res == nil {
 			return []value(nil)
